@@ -8,6 +8,11 @@ for d in seeded/${1:-}*/; do
   id=$(basename "$d")
   prop=$(python3 -c "import json,sys; print(json.load(open('$d/meta.json'))['property'])")
   out=$(tools/try_mutant.sh "$d/patch.diff" "$prop" 2>&1)
+  case "$id" in R-*)
+    # behaviour-preserving refactoring: the check must stay silent
+    if echo "$out" | grep -q -- "-> exit 0" && ! echo "$out" | grep -q "^VIOLATION"; then res=silent-as-expected; else res=FALSE-ALARM; fi
+    echo "$id $prop $res"; continue;;
+  esac
   if echo "$out" | grep -q "^VIOLATION property=$prop"; then
     if echo "$out" | grep -q -- "-> exit 1"; then res=caught; else res="VIOLATION-but-not-exit-1"; fi
   elif echo "$out" | grep -q "HARNESS ERROR"; then res="harness-error"
